@@ -59,6 +59,8 @@ fn gen(prop: &str, seed: u64, thorough: bool, count: Option<usize>) -> Vec<Value
         "C04" => for i in 0..n(300, 6000) { let mut rr = r.fork(); out.push(gen_store::gen_c04(&mut rr, i as u64, thorough)); },
         "C05" => for i in 0..n(150, 3000) { let mut rr = r.fork(); out.push(gen_store::gen_c05(&mut rr, i as u64, thorough)); },
         "C06" => for i in 0..n(200, 3000) { let mut rr = r.fork(); out.push(gen_store::gen_c06(&mut rr, i as u64, thorough)); },
+        #[cfg(feature = "c06")]
+        "C06K" => out = c06::gen(&mut r, thorough, count),
         "C07" => for i in 0..n(200, 4000) { let mut rr = r.fork(); out.push(gen_store::gen_c07(&mut rr, i as u64, thorough)); },
         "C16" => for i in 0..n(120, 1500) { let mut rr = r.fork(); out.push(gen_store::gen_c16(&mut rr, i as u64, page_size(), thorough)); },
         "C17" => for i in 0..n(300, 4000) { let mut rr = r.fork(); out.push(gen_store::gen_c17(&mut rr, i as u64, thorough)); },
@@ -68,8 +70,6 @@ fn gen(prop: &str, seed: u64, thorough: bool, count: Option<usize>) -> Vec<Value
         "C03" => out = c03::gen(&mut r, thorough, count),
         #[cfg(feature = "c05")]
         "C05" => out = c05::gen(&mut r, thorough, count),
-        #[cfg(feature = "c06")]
-        "C06" => out = c06::gen(&mut r, thorough, count),
         #[cfg(feature = "c08")]
         "C08" => out = c08::gen(&mut r, thorough, count),
         #[cfg(feature = "c09")]
@@ -148,6 +148,8 @@ fn main() {
     let args: Vec<String> = std::env::args().collect();
     if args.len() < 2 { eprintln!("usage: askar_harness gen|exec ..."); std::process::exit(2); }
     match args[1].as_str() {
+        #[cfg(feature = "c06")]
+        "child-c06" => c06::child_main(&args[2..]),
         "gen" => {
             let prop = args.get(2).cloned().unwrap_or_default();
             let seed: u64 = arg_val(&args, "--seed").and_then(|s| s.parse().ok()).unwrap_or(1);
